@@ -337,6 +337,11 @@ static std::string run_one(Session& S, RoleCtx& rc, std::map<std::string, std::s
     S.step();
   }
   S.step();
+  if (kv.count("eof") && kv["eof"] == "1") {
+    // remote close after the last byte: the next recv on the drained socket sees EOF
+    P.shutdown_write();
+    for (int i = 0; i < 4; i++) S.step();
+  }
   std::string d1 = digest(S, T, port);
   // release the writer, read what comes back
   Session::set_send_budget(port, -1);
